@@ -276,8 +276,20 @@ def wide_objects(Pm):
         # objects that are the result of shrink(): their cache holds the un-shrunk original (seeded change C18-B)
         'shrunk': lambda: S([1., 2., 0., 4.], [False, True, False, False]).shrink(A(SHRUNK_AM)),
         'shrunk_d': lambda: _with_deriv(S([1., 2., 0., 4.], [False, False, False, True]), Pm).shrink(A(SHRUNK_AM)),
+        # ... with units: a unit-less copy must not un-shrink to the original WITH units (seeded change C18-F)
+        'shrunk_u': lambda: Pm.Scalar(A([1., 2., 0., 4.]), A([False, True, False, False]), units=Pm.Units.KM).shrink(A(SHRUNK_AM)),
+        # a Polynomial made by the quick conversion from a Vector shares that Vector's arrays; each must keep a cache of
+        # its own (seeded change C18-E: queries on the partner re-filled a shared cache dictionary)
+        'poly_alias': lambda: _poly_alias(Pm),
     }
     return objs
+
+
+def _poly_alias(Pm):
+    v = Pm.Vector(np.arange(9.).reshape(3, 3) + 1., np.array([False, True, False]))
+    p = Pm.Polynomial(v)
+    p.__dict__['_c18_partner'] = v
+    return p
 
 
 SHRUNK_AM = [True, False, True, True]
@@ -295,6 +307,13 @@ def wide_alphabet(name, Pm):
          ('q', 'shrink', lambda x: x.shrink(x.antimask) if x.shape else x),
          ('q', 'count', lambda x: int(np.sum(np.broadcast_to(x.mask, x.shape)))),
          ('q', 'str', lambda x: str(x))]
+    if name == 'poly_alias':
+        q += [('q', 'partner_antimask', lambda x: x.__dict__['_c18_partner'].antimask),
+              ('q', 'partner_corners', lambda x: x.__dict__['_c18_partner'].corners),
+              ('q', 'partner_wod', lambda x: x.__dict__['_c18_partner'].wod.mask)]
+    if name == 'shrunk_u':
+        q += [('q', 'unshrink_without_units', lambda x: x.without_units().unshrink(A(SHRUNK_AM)).copy()),
+              ('q', 'unshrink_clone', lambda x: x.clone().unshrink(A(SHRUNK_AM)).copy())]
     if name.startswith('shrunk'):
         # the property asks that the un-shrunk original reflect current values, mask and derivatives; whether it
         # is the (writable) source object itself or a rebuilt read-only one is not part of that: compare a copy
